@@ -11,6 +11,10 @@ import (
 )
 
 func main() {
+	if d := os.Getenv("LOGSTORE_VERIF_DIR"); d != "" {
+		// development: evidence, replays and known_findings.json somewhere else
+		runner.VerifDir = d
+	}
 	logstore.Register()
 	os.Exit(runner.Main(os.Args[1:]))
 }
